@@ -98,9 +98,17 @@ def num_token(rng):
     if kind < 0.15:
         return rng.choice(['-999', '-9.999e+02', '-999.9', '0', '0.0', '-0.0'])
     v = float(10.0 ** rng.uniform(-30, 30)) * (1 if rng.random() < 0.85 else -1)
-    fmt = rng.choice(['%r', '%.3e', '%.10g', '%12.4e', '%f'])
+    fmt = rng.choice(['%r', '%.3e', '%.10g', '%12.4e', '%f', 'E', '+', 'int.', '.frac'])
     if fmt == '%r':
         return repr(v)
+    if fmt == 'E':
+        return ('%.5E' % v)
+    if fmt == '+':
+        return ('%+.4e' % v)
+    if fmt == 'int.':
+        return '%d.' % int(rng.integers(-10 ** 6, 10 ** 6))
+    if fmt == '.frac':
+        return '.%d' % int(rng.integers(0, 10 ** 6))
     if fmt == '%f' and abs(math.log10(abs(v))) > 12:
         fmt = '%.6e'
     return (fmt % v).strip()
@@ -114,8 +122,8 @@ def run(ctx):
                 'and -999 placeholders, names 1..40 chars; round trips to_ascii/from_ascii, dict, pickle. a case = one line; non-trivial = n>=1')
     ctx.assume('flag tokens are plain decimal integers; bad tokens tried: 5-8, 10, -1, 1.5, x, nan',
                'printed precision: %9.5f coordinates (abs 5e-6), %11.3e fluxes (rel 5e-4)')
-    ctx.require_events('Source.from_ascii:post', 'outcome:ok', 'outcome:eof', 'outcome:reject', 'roundtrip:ascii', 'roundtrip:dict', 'roundtrip:pickle')
-    ctx.require_regimes('count:short', 'count:exact', 'count:off', 'bad-flag')
+    ctx.require_events('Source.from_ascii:post', 'outcome:ok', 'outcome:eof', 'outcome:reject', 'roundtrip:ascii', 'roundtrip:dict', 'roundtrip:pickle', 'history:earlier-source-rechecked')
+    ctx.require_regimes('count:short', 'count:exact', 'count:off', 'bad-flag', 'name:looks-like-a-number-or-keyword')
 
     def run_line(line, key, sample=None, nontrivial=True):
         exp = expected(line)
@@ -176,9 +184,16 @@ def run(ctx):
                     run_line(' '.join(['nm', '1.5', '-2.25'] + v2 + vals), ('badflag', vec, pos, b))
     # (3) sampled larger n with round trips
     from sedfitter.source import Source
+    held = []
     for j in range(400 if ctx.quick else 20000):
         n = int(rng.integers(0, nmax + 1))
-        name = ''.join(rng.choice(list('abcXYZ019_-.+'), int(rng.integers(1, 41))))
+        if j % 7 == 3:
+            name = str(rng.choice(['1e5', '12345', '-999', 'nan', 'inf', '1D3', '0', '9', '3.5', '+2', "O'Neil", '"quoted"', 'a#b', 'E', 'd', 'None', 'True']))
+            ctx.regime('name:looks-like-a-number-or-keyword')
+        else:
+            name = ''.join(rng.choice(list('abcdeDEXYZ0123456789_-.+:;,/\\|()[]{}<>=*&^%$@!~?`\'"'), int(rng.integers(1, 41))))
+            if j % 2:
+                name = name[:1] + '#' + name[1:39]
         valid = [int(rng.choice([0, 1, 2, 3, 4, 9])) for _ in range(n)]
         vals = [float(num_token(rng)) for _ in range(2 * n)]
         x, y = float(rng.uniform(-360, 360)), float(rng.uniform(-90, 90))
@@ -186,6 +201,14 @@ def run(ctx):
         got, s = run_line(line, ('rt', j, ctx.shard), nontrivial=n >= 1)
         if got != 'ok':
             continue
+        held.append((line, s, probe.canon_source(s)))
+        if len(held) > 30:
+            held.pop(int(rng.integers(len(held))))
+        hl, hs, hc = held[int(rng.integers(len(held)))]
+        hc1 = probe.canon_source(hs)
+        ctx.event('history:earlier-source-rechecked')
+        if any(not (probe.same(hc[k_], hc1[k_]) if isinstance(hc[k_], np.ndarray) else hc[k_] == hc1[k_]) for k_ in hc):
+            ctx.violation('parse:earlier-source-changed', 'a source parsed earlier changed when later lines were parsed', {'line': hl, 'later_line': line})
         # to_ascii -> from_ascii
         try:
             text = s.to_ascii()
